@@ -20,6 +20,10 @@ pub mod pinned;
 mod match_tree;
 mod node;
 
+#[cfg(feature = "verif-hooks")]
+#[doc(hidden)]
+pub mod verif_hooks;
+
 pub use language::Language;
 pub use match_tree::MatchStrictness;
 pub use matcher::{Matcher, NodeMatch, Pattern, PatternError};
